@@ -26,7 +26,7 @@ FUNCS = [
     "qlasskit.compiler.internalcompiler.InternalCompiler.compile (gate list interpreted symbolically)",
 ]
 BOUNDS = {
-    "quick": "signature-diverse corpus (1-3 arguments; bool/Qint/Qfixed/Qchar/Tuple/nested Tuple/Qlist/Qmatrix; returns of each kind): core + seed slice; <= 12 input bits; default optimizer, uncompute on; <= 8 bits per scalar argument; all argument values symbolic; symx path budget 600",
+    "quick": "signature-diverse corpus (1-3 arguments; bool/Qint/Qfixed/Qchar/Tuple/nested Tuple/Qlist/Qmatrix; returns of each kind): core + seed slice; <= 12 input bits; default optimizer with uncompute on for the signature core; both profiles, uncompute on/off and compile histories for the seed slice; <= 8 bits per scalar argument; all argument values symbolic; symx path budget 600",
     "thorough": "whole corpus incl. both optimizer profiles",
 }
 OUTSIDE = "int and short (non full-length) readings passed to decode_output; programs enumerated; programs whose circuit is a listed C02/C03 known finding still count here if the round trip breaks"
@@ -99,11 +99,20 @@ def make_items(tier, seed):
             if opt == "fast" and tier != "thorough" and fam != "sig":
                 continue
             out.append({"fam": fam, "src": src, "opt": opt, "uncompute": True})
+    # the round trip is claimed for every compiler setting: circuits left un-uncomputed, both profiles,
+    # and compilations that follow other compilations of the same source (history, see circ.compile_prog)
+    stale = corpus.u_stale(full=True)[:: (8 if tier == "thorough" else 24)] + corpus.u_selfif(full=True)[:: (12 if tier == "thorough" else 48)]
+    k = 0
+    for fam, src in [p for p in P if p[0] != "sig"][:: (1 if tier == "thorough" else 3)] + stale:
+        k += 1
+        out.append({"fam": "cfg:" + fam, "src": src, "opt": "fast" if k % 2 else "default", "uncompute": False, "history": k % 3 == 0})
+        if k % 4 == 0:
+            out.append({"fam": "cfg:" + fam, "src": src, "opt": "fast", "uncompute": True, "history": True})
     if tier == "thorough":
         return out
     core = [sp for sp in out if sp["fam"] == "sig"]
     rest = [sp for sp in out if sp["fam"] != "sig"]
-    return slice_quick(core + rest, seed, len(core), 45)
+    return slice_quick(core + rest, seed, len(core), 90)
 
 
 # ---------------------------------------------------------------- twin mirroring
